@@ -5,10 +5,14 @@ LOOP_SWAP = ["eventloop_unix.go", "connection_unix.go", "connection_linux.go", "
              "pkg/socket/sock_cloexec.go", "pkg/socket/fd_unix.go"]
 
 
-def drv(focus, n_quick=None, n_thorough=None):
-    d = dict(cmd="drv-loop", family="loop", variant=focus, unix_swap=LOOP_SWAP, shrink=False,
-             args=["-focus", focus], timeout=dict(quick=600, thorough=3000))
-    return d
+def drv(focus, n=None, tags="verif"):
+    """one drv-loop run: focus = stream | fault | udp | client | stale; tags may add gc_opt (matrix registry)"""
+    args = ["-focus", focus]
+    if n:
+        args += ["-n", str(n)]
+    variant = focus + ("-gcopt" if "gc_opt" in tags else "")
+    return dict(cmd="drv-loop", family="loop", variant=variant, unix_swap=LOOP_SWAP, shrink=False,
+                args=args, tags=tags, timeout=dict(quick=600, thorough=3000))
 
 
 RULE = ("each case starts the real engine (1 loop; LT / ET / ET+chunk; tcp or unix; reactor or reuse-port; "
